@@ -1,6 +1,6 @@
 """C10 - only convex uses of convex/concave expressions are accepted."""
 from harness import core
-from checks import suite_curvature
+from checks import suite_curvature, suite_declorder
 
 
 def main(tier):
@@ -19,6 +19,9 @@ def main(tier):
                        'a value deviation counts only beyond 10x the tolerance, otherwise inconclusive',
                        'scalars are dyadic (-2,-1,0,1/2,1,2), operands the constant 1 and one free scalar variable']
     suite_curvature.run(rep, tier, props=('C10',))
+    # a decision rule times a random variable must never be compiled: z*y on a not-yet-adapted rule is legal, the adapt() that
+    # would turn it into rule x random must raise (DeclOrder.tla: adapt after use, every placement of the early use)
+    suite_declorder.run(rep, tier, props=('C10',))
     return rep.finish()
 
 
